@@ -1034,3 +1034,87 @@ def rule_points_compared_whole(ctx: Ctx, rep: Report, rule: str, module_prefixes
             rep.ob(rule, f"{q}:{norm(c)}", True, fi.where(c), "compared whole")
     rep.ob(rule, "scanned", True, "btclib:1", f"{n} point / name equalities in verifying functions of {module_prefixes}")
     rep.floor(rule, floor)
+
+
+CONFIG_PARAMS = {"ec", "hf", "network"}
+HASH_PARAM_OK = {
+    ("btclib.ecc.dsa.anti_exfil_host_verify", "commit_hash", "rho"): "rho is the host's 32-byte commitment itself, not a message to be hashed (anti-exfil protocol)",
+}
+
+
+def rule_config_not_replaced(ctx: Ctx, rep: Report, rule: str, module_prefixes: tuple[str, ...], floor: int) -> None:
+    """A function that takes the curve, the hash function or the network and calls
+    a btclib function with a parameter of that name hands it *its own*: the
+    argument is the parameter (or something computed from it, or a local) -- never
+    a module-level constant (`sha256`, `secp256k1`, "mainnet"). With `sha256`
+    written where `hf` is in scope, a signer asked for sha512 derives its nonce
+    with another hash than the one it was told, silently. The dispatch
+    predicate, asked with `None` where only arithmetic is delegated, is C04's
+    to judge and is left out."""
+    n = 0
+    for q, fi in sorted(ctx.prog.functions.items()):
+        if not any(q.startswith(p_) for p_ in module_prefixes):
+            continue
+        params = {p_ for p_ in fi.params() if p_ in CONFIG_PARAMS}
+        if not params:
+            continue
+        local = {t.id for a in own_nodes(fi.node) if isinstance(a, (ast.Assign, ast.AnnAssign)) for t in (a.targets if isinstance(a, ast.Assign) else [a.target]) for t in ast.walk(t) if isinstance(t, ast.Name)}
+        local |= {x.id for lp in own_nodes(fi.node) if isinstance(lp, (ast.For, ast.comprehension)) for x in ast.walk(lp.target) if isinstance(x, ast.Name)}
+        for c in own_nodes(fi.node):
+            if not isinstance(c, ast.Call) or any(isinstance(x, ast.Starred) for x in c.args):
+                continue
+            callee = ctx.prog.functions.get(ctx.resolve_call(fi, c) or "")
+            if callee is None or callee is fi or callee.name == "_libsecp256k1_serves":
+                continue
+            ca = callee.node.args
+            pos = ca.posonlyargs + ca.args
+            if pos and pos[0].arg in ("self", "cls"):
+                pos = pos[1:]
+            pairs = [(pos[i].arg, a) for i, a in enumerate(c.args) if i < len(pos)] + [(k.arg, k.value) for k in c.keywords if k.arg]
+            for pn, a in pairs:
+                if pn not in params:
+                    continue
+                n += 1
+                names = {x.id for x in ast.walk(a) if isinstance(x, ast.Name)}
+                own = pn in names or bool(names & (local | set(fi.params())))
+                ok = own or not (isinstance(a, (ast.Name, ast.Constant, ast.Attribute)))
+                rep.ob(rule, f"{q}->{callee.name}({pn})@{c.lineno - fi.node.lineno}", ok, fi.where(c), f"`{pn}` is handed on" if ok else
+                       f"`{callee.name}` is given `{pn}={norm(a)}` where `{fi.name}` has a `{pn}` of its own: the caller's choice is silently replaced")
+    rep.ob(rule, "scanned", True, "btclib:1", f"{n} config arguments examined in {module_prefixes}")
+    rep.floor(rule, floor)
+
+
+def rule_hash_params(ctx: Ctx, rep: Report, rule: str, module_prefixes: tuple[str, ...], floor: int) -> None:
+    """A parameter named `..._hash` (msg_hash, commit_hash) takes a hash: the
+    public spellings reduce a message with `reduce_to_hlen` and hand the digest
+    to the underscore spellings. A caller's own parameter that is not itself a
+    hash (msg, commit) is never handed to a `..._hash` parameter as it came --
+    the commitment would be verified against the text instead of its digest.
+    (One reviewed exception, in the table.)"""
+    n = 0
+    for q, fi in sorted(ctx.prog.functions.items()):
+        if not any(q.startswith(p_) for p_ in module_prefixes):
+            continue
+        params = set(fi.params())
+        for c in own_nodes(fi.node):
+            if not isinstance(c, ast.Call) or any(isinstance(x, ast.Starred) for x in c.args):
+                continue
+            callee = ctx.prog.functions.get(ctx.resolve_call(fi, c) or "")
+            if callee is None:
+                continue
+            ca = callee.node.args
+            pos = ca.posonlyargs + ca.args
+            if pos and pos[0].arg in ("self", "cls"):
+                pos = pos[1:]
+            pairs = [(pos[i].arg, a) for i, a in enumerate(c.args) if i < len(pos)] + [(k.arg, k.value) for k in c.keywords if k.arg]
+            for pn, a in pairs:
+                if not pn.endswith("_hash"):
+                    continue
+                n += 1
+                raw = isinstance(a, ast.Name) and a.id in params and "hash" not in a.id and not _rebound_before(fi, a.id, c)
+                why = HASH_PARAM_OK.get((q, pn, a.id if isinstance(a, ast.Name) else ""))
+                rep.ob(rule, f"{q}->{callee.name}({pn})@{c.lineno - fi.node.lineno}", not raw or why is not None, fi.where(c),
+                       (f"reviewed: {why}" if why else "a digest (or a value of the caller's that is one) is handed over") if (not raw or why) else
+                       f"`{callee.name}` is given `{pn}={a.id}`, the caller's own `{a.id}` as it came: it is the text, not its hash")
+    rep.ob(rule, "scanned", True, "btclib:1", f"{n} arguments to ..._hash parameters examined in {module_prefixes}")
+    rep.floor(rule, floor)
